@@ -300,6 +300,7 @@ def judge(world, obs, placement, stats):
     for i, what, exp, got in bad:
         if what in ('fixpoint', 'const'):
             viol.append({'clause': 'C10.ordinary', 'cell': i,
+                         'absorb': absorbing_cycle(G, cycles, i),
                          'detail': 'cell %d reports %s but its own formula on '
                                    'the reported values gives %s' % (
                                        i, got, exp)})
@@ -350,6 +351,18 @@ def judge(world, obs, placement, stats):
                                                       tag(i))})
     stats['static_cycles'] = stats.get('static_cycles', 0) + len(cycles)
     return viol, G
+
+
+def absorbing_cycle(G, cycles, i):
+    """Cell i lies on a static cycle one of whose edges passes through an
+    error-absorbing position (value argument of IFERROR/IFNA, ISERROR, COUNT):
+    the #CIRC! that marks the cut is swallowed inside the cycle."""
+    for c in cycles:
+        if i in c and any(
+                any(o['icpt'] or o['sw'] for o in G.edge[u][v])
+                for u, v in G.cycle_edges(c)):
+            return True
+    return False
 
 
 def range_member_signature(G, cycles, rel):
@@ -449,6 +462,8 @@ def signature(trace, v):
     if v['clause'] == 'C10.resolve' and v.get('range_member'):
         return 'C10.resolve/range-member-on-cycle'
     if v['clause'] == 'C10.strict' and v.get('icpt'):
+        return 'C10.strict/cycle-through-iferror-value'
+    if v['clause'] == 'C10.ordinary' and v.get('absorb'):
         return 'C10.strict/cycle-through-iferror-value'
     return None
 
